@@ -24,7 +24,9 @@ RULE = ("Every generated design (C03's space: module trees of up to five modules
         "lock step with amaranth's simulator under one generated event list (coincident clock toggles, resets, "
         "controls, data, memory port inputs). After every event every top-level output and every named register / "
         "signal of every module (located through the returned name map) is compared; bits the RTLIL leaves undefined "
-        "are masked and counted. programs == designs converted; disagreements_checked == signal comparisons made. "
+        "are masked and counted. expressions: C01's expression grammar (depth 3/5) computed inside a submodule from "
+        "top-level inputs and observed in a widened combinational signal, through a register and through a narrower "
+        "signal of the other signedness, on exhaustive or corner input vectors. programs == designs converted; disagreements_checked == signal comparisons made. "
         "Non-trivial: the RTLIL has >=2 modules, or a process with a nested switch, or a memory, and the trace is "
         "not constant. Distinct by canonical hash of the case.")
 ASSUMPTIONS = [
@@ -249,14 +251,101 @@ def _nested(body, depth=0):
     return False
 
 
+def expr_body(ctx, case):
+    """One deep expression (C01's grammar): computed in a submodule from top-level inputs, observed combinationally
+    in a widened signal and through a register; RTLIL evaluator vs simulator on exhaustive or corner input vectors."""
+    from vlib import gen_expr as G, build as B, refsem as R
+    from amaranth.hdl import ClockDomain
+    env, e = case["env"], case["expr"]
+    vectors, exhaustive = G.input_vectors(env)
+    if len(vectors) > 48:
+        step = len(vectors) / 48.0
+        vectors = [vectors[int(i * step)] for i in range(48)]
+    def mk():
+        sigs = B.make_inputs(env)
+        top = Module()
+        top.domains.sync = cd = ClockDomain()
+        sub = Module()
+        top.submodules.sub = sub
+        rw, rs = R.shape_of(e, env)
+        v = Value.cast(B.expr(e, sigs))
+        o = Signal(B.mkshape(rw + 2, rs), name="o")
+        r = Signal(B.mkshape(rw + 2, rs), name="r")
+        narrow = Signal(B.mkshape(max(rw - 1, 0 if rs else 1), not rs), name="narrow")
+        sub.d.comb += o.eq(v)
+        top.d.sync += r.eq(o)
+        top.d.comb += narrow.eq(o)
+        return top, cd, sigs, o, r, narrow
+    simorder.set_policy(None)
+    with warnings.catch_warnings():
+        warnings.simplefilter("ignore")
+        top, cd, sigs, o, r, narrow = mk()
+        sim = Simulator(top)
+        top2, cd2, sigs2, o2, r2, narrow2 = mk()
+        pd = {f"i{k}": (s_, None) for k, s_ in enumerate(sigs2)}
+        pd.update({"o": (o2, None), "r": (r2, None), "narrow": (narrow2, None), "clk": (cd2.clk, None), "rst": (cd2.rst, None)})
+        text, _ = rtlil.convert_fragment(Fragment.get(top2, None), ports=pd, name="top")
+    try:
+        design = RR.parse(text)
+        ev = RE.Evaluator(design)
+    except (RR.RTLILSyntaxError, RR.UnknownWire, RR.SliceOutOfBounds) as ex:
+        raise Mismatch("rtlil-does-not-parse", error=str(ex)[:300])
+    def rset(upd):
+        upd = {"\\" + k: v for k, v in upd.items() if "\\" + k in ev.inputs}
+        if upd:
+            ev.set_inputs(upd)
+    rset({**{f"i{k}": 0 for k in range(len(sigs))}, "clk": 0, "rst": 0})
+    fail = []
+    n = [0, 0]
+
+    async def tb(c):
+        for vec in vectors:
+            upd = {}
+            for k, (s_, x) in enumerate(zip(sigs, vec)):
+                c.set(s_, x)
+                upd[f"i{k}"] = x & ((1 << len(s_)) - 1)
+            rset(upd)
+            c.set(cd.clk, 1); rset({"clk": 1})
+            c.set(cd.clk, 0); rset({"clk": 0})
+            for name, s1 in (("o", o), ("r", r), ("narrow", narrow)):
+                w = len(s1)
+                got = c.get(s1) & ((1 << w) - 1)
+                if ("\\" + name,) not in ev.wires:
+                    continue
+                rv, rx = ev.get(("\\" + name,))
+                n[0] += 1
+                if rx: n[1] += 1
+                if (got ^ rv) & ~rx & ((1 << w) - 1):
+                    fail.append(Mismatch("simulator-and-rtlil-disagree", signal=name, env=env, expr=e, inputs=vec,
+                                         simulator=got, rtlil=rv, rtlil_undef_mask=rx)); return
+    with warnings.catch_warnings():
+        warnings.simplefilter("ignore")
+        sim.add_testbench(tb)
+        sim.run()
+    if fail:
+        raise fail[0]
+    ops = R.ops_in(e)
+    d = R.depth(e)
+    keys = [f"expr:depth{min(d, 5)}"] + ["xop:" + op for op in ops]
+    ctx.extra["programs"] = ctx.extra.get("programs", 0) + 1
+    ctx.extra["disagreements_checked"] = ctx.extra.get("disagreements_checked", 0) + n[0]
+    ctx.extra["masked_comparisons"] = ctx.extra.get("masked_comparisons", 0) + n[1]
+    ctx.note(case, d >= 2, *keys, evals=n[0])
+
+
 def parts(tier):
     q = tier == "quick"
     simorder.install()
-    return [Part("designs", "hyp", strategy=cases(2 if q else 3, 16 if q else 40), body=body, n=60 if q else 1000)]
+    from vlib import gen_expr as G
+    return [Part("designs", "hyp", strategy=cases(2 if q else 3, 16 if q else 40), body=body, n=60 if q else 1000),
+            Part("expressions", "hyp", strategy=G.expr_case(depth=3 if q else 5, maxw=6 if q else 10), body=expr_body,
+                 n=250 if q else 4000)]
 
 
 REQUIRED = ["c04:>=2-modules", "c04:nested-switch", "c04:memory", "c04:trace-not-constant", "c04:cross-module-links",
-            "c04:async-reset-flops", "c04:part-select"]
+            "c04:async-reset-flops", "c04:part-select", "expr:depth3"] + \
+           ["xop:" + o for o in ("b:+", "b:-", "b:*", "b://", "b:%", "b:<<", "b:>>", "b:==", "b:<", "b:&", "u:neg", "u:~", "u:abs",
+                                 "u:as_s", "u:as_u", "bsel", "wsel", "mux", "arr", "match", "cat", "rep", "slice", "rol", "shl")]
 
 
 def coverage_extra(tier, counters, extra):
